@@ -200,9 +200,9 @@ def run(ctx: Ctx, driver: Driver):
                             g, exp, others = getattr(sc, step)()
                             items = orders(state, code, [(k, others[k]) for k in osub_keys])[oi]
                             wire = refacc.tlv(items)
-                            decoded = TLV.decode_bytes(wire, expected=exp) if filtered else TLV.decode_bytes(wire)
+                            # decoding the reply is part of what the transports do with it: whatever it raises is part of the outcome
                             with mock.patch.object(P, "SrpClient", FakeSrp):
-                                out = outcome(lambda: g.send(decoded))
+                                out = outcome(lambda: g.send(TLV.decode_bytes(wire, expected=exp) if filtered else TLV.decode_bytes(wire)))
                             ctx.evaluations += 1
                             cell = (step, code, state, osub_keys, oi, filtered)
                             ctx.nontrivial.add(cell)
@@ -270,8 +270,7 @@ def resume_grid(ctx, rng):
                     er = [(7, code)] if code is not None else []
                     items = [st + er + resume, er + resume + st, resume + st + er][order]
                     wire = refacc.tlv(items)
-                    decoded = TLV.decode_bytes(wire, expected=exp) if filtered else TLV.decode_bytes(wire)
-                    out = outcome(lambda: g.send(decoded))
+                    out = outcome(lambda: g.send(TLV.decode_bytes(wire, expected=exp) if filtered else TLV.decode_bytes(wire)))
                     ctx.evaluations += 1
                     n += 1
                     ctx.nontrivial.add(("verifyM2-resume", code, state, order, filtered))
@@ -3100,9 +3099,8 @@ def replay(ctx, driver, c):
     if c["stream"] == "step":
         g, exp, _ = getattr(sc, c["step"])()
         wire = refacc.tlv(items)
-        decoded = TLV.decode_bytes(wire, expected=exp) if c["filtered"] else TLV.decode_bytes(wire)
         with mock.patch.object(P, "SrpClient", FakeSrp):
-            out = outcome(lambda: g.send(decoded))
+            out = outcome(lambda: g.send(TLV.decode_bytes(wire, expected=exp) if c["filtered"] else TLV.decode_bytes(wire)))
         d = dict(items)
         step_state = {"setupM2": b"\x02", "setupM4": b"\x04", "setupM6": b"\x06", "verifyM2": b"\x02", "verifyM4": b"\x04"}[c["step"]]
         want = expected_outcome(step_state, d.get(6), d.get(7))
